@@ -43,6 +43,10 @@ for q in _q_variants:
     # immediate address reuse (ABA hunting) with pointer-, era- and count-based protection
     for r in ["hp", "he", "lfrc", "ebr"]:
         _c04_thorough.append(run("queues", "%s_%s" % (q, r), c=2, heap="reuse", weight=1.0))
+# four threads (the quantifier speaks of 2..4), one operation each
+for q in ["ms", "ram_e1p1", "nik_e1p1"]:
+    _c04_thorough.append(run("queues", "%s_hp" % q, c=1, opt={"T": 4, "m": 1, "prefill": 1}, weight=2.0))
+    _c04_thorough.append(run("queues", "%s_ebr" % q, c=1, opt={"T": 4, "m": 1, "prefill": 0}, weight=2.0))
 PLAN["C04"] = {
     "quick": _c04_quick,
     "thorough": _c04_thorough,
@@ -96,6 +100,8 @@ _c01_thorough.append(run("reclaim", "proto_he", c=2, d=1, mode="wmm", heap="reus
 # less eager parameters (scan_frequency 1..3, scan threshold B = 2, scan n_threads<1>, abandon threshold 2, eager region extension): the counters that delay
 # a scan or an epoch advance are part of the protocol too
 RECL_LAZY = ["ebr_f2", "debra_f1", "gebr_f3", "hp_b2", "hed_b2"]
+for r in ["hp", "he", "ebr", "qsbr", "lfrc", "debra"]:  # four threads, one operation each
+    _c01_thorough.append(run("reclaim", "proto_" + r, c=1, opt={"ops": 0x62, "T": 4, "m": 1}, weight=2))
 for r in RECL_LAZY:
     _c01_quick.append(run("reclaim", "proto_" + r, c=1, opt={"ops": 0xee}, weight=0.5))
     _c01_thorough.append(run("reclaim", "proto_" + r, c=2, opt={"ops": 0xee}, weight=2))
@@ -221,7 +227,8 @@ PLAN["C05"] = {
                  run("bounded", "nikolaev_p0", c=3, opt={"cap": 2}, weight=4), run("bounded", "nikolaev", c=3, opt={"cap": 2, "fixed": 1, "prefill": 0}, weight=4),
                  run("bounded", "nikolaev", c=3, opt={"cap": 4, "fixed": 1, "prefill": 1}, weight=4), run("bounded", "vyukov", c=3, opt={"cap": 2, "fixed": 1, "prefill": 0}, weight=4), run("bounded", "nikolaev_p0", c=2, opt={"cap": 1}),
                  run("bounded", "nikolaev", c=2, opt={"cap": 2, "T": 3, "m": 1}), run("bounded", "nikolaev", c=2, opt={"cap": 2, "T": 2, "m": 3}, weight=4),
-                 run("bounded", "vyukov", c=2, opt={"cap": 2}, mode="wmm", d=1, weight=4), run("bounded", "nikolaev", c=2, opt={"cap": 2}, mode="wmm", d=1, weight=4)],
+                 run("bounded", "vyukov", c=2, opt={"cap": 2}, mode="wmm", d=1, weight=4), run("bounded", "nikolaev", c=2, opt={"cap": 2}, mode="wmm", d=1, weight=4),
+                 run("bounded", "nikolaev", c=1, opt={"cap": 2, "T": 4, "m": 1}, weight=2), run("bounded", "vyukov", c=1, opt={"cap": 2, "T": 4, "m": 1}, weight=2)],
     "budget_s": {"quick": 120, "thorough": 900},
     "rule": "programs: T threads x m operations over {try_push_strong, try_pop_strong, try_push_weak, try_pop_weak} (vyukov; the runs vyukov_api / vyukov_dw go through the "
             "policy-dispatched try_push / try_pop / pop and through pop_strong / pop_weak with default_to_weak false / true) / {try_push, try_pop alternating with pop()} (nikolaev), all "
@@ -260,6 +267,7 @@ _c06_quick += [run("sweep", "kb", c=0, r=0, opt={"maxn": 40, "laps": 3}, weight=
                run("sweep", "kf_ebr", c=0, r=0, opt={"maxn": 40, "laps": 3}, weight=0.1),
                run("sweep", "kb", c=0, r=1, opt={"maxn": 7, "laps": 2, "maxk": 3, "maxsegs": 3}, weight=0.3), run("sweep", "kf_hp", c=0, r=1, opt={"maxn": 7, "laps": 2, "maxk": 3}, weight=0.3)]
 _c06_thorough = [
+    run("kfifo", "kb", c=1, r=1, opt={"k": 2, "segs": 2, "T": 4, "m": 1}, weight=2), run("kfifo", "kf_hp", c=1, opt={"k": 2, "T": 4, "m": 1}, weight=2),
     run("sweep", "kb", c=0, r=0, opt={"maxn": 100, "laps": 4, "maxk": 7, "maxsegs": 7}, weight=0.3), run("sweep", "kf_hp", c=0, r=0, opt={"maxn": 100, "laps": 4, "maxk": 7}, weight=0.3),
     run("sweep", "kb", c=0, r=1, opt={"maxn": 30, "laps": 2}, weight=2), run("sweep", "kf_hp", c=0, r=1, opt={"maxn": 30, "laps": 2}, weight=2), run("sweep", "kf_ebr", c=0, r=1, opt={"maxn": 20, "laps": 2}, weight=1),
     run("kfifo", "kb", c=3, r=1, opt={"k": 2, "segs": 2, "prefill": 1}, weight=8), run("kfifo", "kb", c=2, r=2, opt={"k": 2, "segs": 2}, weight=3),
@@ -441,6 +449,7 @@ _c08_thorough = [run("hm", "set_" + r, c=1, opt={"ops": 0x97}, weight=3 if r == 
 _hm_sweeps = ["set_hp", "set_ebr", "set_lfrc", "map_b1_hp", "map_b5_memo_hp", "map_b8_hp", "map_b8_memo_scr_ebr", "map_b16_const_hp", "map_b16_lfrc", "map_b64_stamp", "map_mk_b8_hp"]
 _c08_quick += [run("hm", "sweep_" + t, c=0, weight=0.15) for t in _hm_sweeps]
 _c08_thorough += [run("hm", "sweep_" + t, c=0, opt={"maxn": 40}, weight=0.5) for t in _hm_sweeps]
+_c08_thorough += [run("hm", t, c=1, opt={"ops": 0x3, "T": 4, "m": 1, "keys": 1}, weight=2) for t in ["set_hp", "map_b1_ebr", "map_b1_lfrc"]]  # four threads
 PLAN["C08"] = {
     "quick": _c08_quick, "thorough": _c08_thorough, "budget_s": {"quick": 170, "thorough": 1300},
     "rule": "programs: T threads x m operations over subsets of {emplace, erase(key), contains, find, emplace_or_get, get_or_emplace, get_or_emplace_lazy, erase(find(key)), "
